@@ -81,7 +81,7 @@ func TestCheck(t *testing.T) {
 	for i := 0; i < nstop; i++ {
 		plans = append(plans, pl{mode: "stop"})
 	}
-	nrr := mon.Pick(360, 14000)
+	nrr := mon.Pick(360, 10000)
 	for i := 0; i < nrr; i++ {
 		plans = append(plans, pl{mode: "resetrace"})
 	}
